@@ -632,7 +632,7 @@ def r7(F, R):
             R.check(ok, "ambiguous-is-failed-ambiguous", b, "Err(e) => StepError::AmbiguousMatch(e)", "an ambiguous match is not reported as StepError::AmbiguousMatch carrying the error (or the step / World::new still runs)")
             continue
         if r["find"] == "Ok" and r["found"] == "None":
-            ok = r["ret"] == "Ok" and not r["world_new"] and not r["step_call"] and D.is_variant(p.ret[3][0][1][0] if p.ret[3][0][0] == "tuple" else None, "std::option::Option", "None")
+            ok = r["outcome"] == "skipped" and not r["world_new"] and not r["step_call"]
             R.check(ok, "no-match-is-skipped", b, "Ok(None) => Ok((None, None, world)) (skipped, no World created)", "a step without a matching definition is not routed to the skipped outcome")
             continue
         if r["find"] != "Ok" or r["found"] != "Some":
